@@ -439,6 +439,15 @@ class ChildVarsFromKwargs(LibModel):
         o, c = args
         if isinstance(o, Obj) and o.kind in ('expr', 'const') and isinstance(c, C) and c.v == Ref('class', 'SymbolicExpression'):
             return [(st, C(o.kind == 'expr'))]
+        if isinstance(o, Obj) and o.kind in ('expr', 'const') and isinstance(c, C) and isinstance(c.v, Ref) and c.v.kind == 'class' \
+                and self.src.is_subclass(c.v.name, 'SymbolicExpression'):
+            # a narrower expression class: a constant is no instance of it; an arbitrary symbolic argument may or may not be
+            if o.kind == 'const':
+                return [(st, C(False))]
+            yes, no = st.clone(), st.clone()
+            yes.path.append(f"{o.data['tag']}-is-a-{c.v.name}")
+            no.path.append(f"{o.data['tag']}-is-no-{c.v.name}")
+            return [(yes, C(True)), (no, C(False))]
         return super().f_isinstance(eng, st, args, kwargs, node)
 
     def setitem(self, eng, st, recv, k, v):
